@@ -23,83 +23,85 @@ def run(ctx):
     raw_print = roles.inherent(facts, RESP, "raw_print")
     ctx.touch(f)
 
-    # ---- C19.1 decision table of add_header
-    atoms = {}
-    for bb, t in f.calls():
-        if call_matches(t, r"common::HeaderField::equiv$") and t.get("target") is not None:
-            lits = [c for c in arg_consts(f, t) if isinstance(c, str)]
-            bs = bool_switch(f, t["target"])
-            if lits and bs and op_local(bs[0]) == t["dest"]["l"]:
-                recv = f.origin(t["args"][0])
-                atoms[t["target"]] = ("name:" + lits[0], {True: bs[1], False: bs[2]}, recv)
-    for bb in sorted(f.live_blocks()):
-        if f.blocks[bb]["cleanup"]:
-            continue
-        sw = switch_on_discr(f, bb)
-        if not sw:
-            continue
-        rv, m, otherwise, rest = sw
-        o = f.origin_place(rv["pl"])
-        if rv.get("adt") == "std::result::Result" and origin_has_call(o, r"FromStr for usize>::from_str$|parse::<usize>$"):
-            atoms[bb] = ("parse-ok", {True: m.get("Ok", otherwise if "Ok" in rest else None), False: m.get("Err", otherwise if "Err" in rest else None)}, None)
-        if rv.get("adt") == "std::option::Option" and origin_has_call(o, r"Iterator>?::find(::<|$)"):
-            atoms[bb] = ("ct-present", {True: m.get("Some", otherwise if "Some" in rest else None), False: m.get("None", otherwise if "None" in rest else None)}, None)
-    names = sorted(a[0] for a in atoms.values())
-    want_names = sorted(["name:" + n for n in PROTECTED + ["Content-Length", "Content-Type"]] + ["parse-ok", "ct-present"])
-    ctx.ob("C19.1", "%s|atoms" % f.id, "add_header distinguishes exactly: the four protected names, Content-Length, Content-Type, whether the length parses, whether a Content-Type exists",
-           names == want_names, "%s:%d" % (f.file, f.line), str(names))
-    # the name tests look at the incoming header's field
-    ok = all("field" in origin_fields(a[2]) for a in atoms.values() if a[2] is not None)
-    ctx.ob("C19.1", "%s|tests-incoming-name" % f.id, "the name tests are made on the header being added", ok, "%s:%d" % (f.file, f.line))
-    if names == want_names:
-        pushes = set(b for b, t in f.calls() if call_matches(t, r"Vec::<T(, A)?>::push$") and "headers" in arg_origin_fields(f, t))
-        def atom_of(bb):
-            a = atoms.get(bb)
-            return (a[0], a[1]) if a else None
-        bad = []
-        rows = 0
-        classes = PROTECTED + ["Content-Length", "Content-Type", None]
-        for cls in classes:
-            for parse_ok in (False, True):
-                for ctp in (False, True):
-                    asg = {"name:" + n: (n == cls) for n in PROTECTED + ["Content-Length", "Content-Type"]}
-                    asg["parse-ok"] = parse_ok
-                    asg["ct-present"] = ctp
-                    ev = {"push": 0, "len": None, "replace": 0}
-                    def on_block(bb):
-                        if bb in pushes:
-                            ev["push"] += 1
-                        for s in f.stmts(bb):
-                            if s["s"] == "assign":
-                                fl = pl_fields(s["lhs"])
-                                if fl == ["data_length"]:
-                                    ev["len"] = origin_str(f.origin(s["rhs"]["op"])) if s["rhs"]["rv"] == "use" else "?"
-                                if fl and fl[-1] == "value" and s["lhs"]["l"] != 0:
-                                    ev["replace"] += 1
-                    end, visited = shared.walk_decision(f, 0, atom_of, asg, set(f.returns()), on_block)
-                    rows += 1
-                    ctx.paths += 1
-                    if cls in PROTECTED:
-                        want = (0, False, 0)
-                    elif cls == "Content-Length":
-                        want = (0, parse_ok, 0)
-                    elif cls == "Content-Type":
-                        want = (0, False, 1) if ctp else (1, False, 0)
-                    else:
-                        want = (1, False, 0)
-                    got = (ev["push"], ev["len"] is not None, ev["replace"])
-                    if end is None or got != want:
-                        bad.append((cls, parse_ok, ctp, got, want))
-                    if cls == "Content-Length" and parse_ok and ev["len"] is not None and "Ok" not in ev["len"]:
-                        bad.append((cls, "declared length is not the parsed value", ev["len"]))
-        ctx.ob("C19.1", "%s|table" % f.id, "for every name class / parse outcome / existing Content-Type: protected names are dropped, Content-Length only sets the length, a later Content-Type replaces, anything else is appended exactly once",
-               not bad, "%s:%d" % (f.file, f.line), None if not bad else str(bad[:4]))
-        ctx.counts["C19.1 table rows"] = rows
-        # what is pushed is the incoming header itself
-        for pb in pushes:
-            o = f.origin(f.term(pb)["args"][1])
-            okp = origin_has_call(o, r"Into::into$|into$") or any(x == ("arg", 2) for x in origin_walk(o))
-            ctx.ob("C19.1", "%s|pushes-given-header" % f.id, "the appended header is the one supplied", okp, f.loc(pb), origin_str(o))
+    # ---- C19.1 decision table of add_header, by abstract evaluation for every class of incoming header name
+    import inline, absint, framing_rules as FRM
+    import queue_rules as Q
+    fa = inline.inlined(facts, add_header.id, stop=lambda d: facts.fns[d].rec.get("local") and facts.fns[d].file != add_header.file, extern_ok=Q.std_small)
+    ctx.touch(fa)
+    NAME, VALUE = ("sym", "incoming-name"), ("sym", "incoming-value")
+    hdr_fields = [x["name"] for x in facts.adt(HEADER)["variants"][0]["fields"]]
+    fld_field = [x["name"] for x in facts.adt(HEADER)["variants"][0]["fields"] if x["ty"] == HFIELD][0]
+    val_field = [x for x in hdr_fields if x != fld_field][0]
+    INCOMING = ("agg", HEADER, "Header", {fld_field: NAME, val_field: VALUE})
+    import response_rules as RSP
+    M0 = RSP.resp_model(facts)
+    classes = PROTECTED + ["Content-Length", "Content-Type", "X-Other"]
+    bad = []
+    rows = 0
+    lits_seen = set()
+    for cls in classes:
+        def on_call(bb, t, args, st, cls=cls):
+            n = call_name(t)
+            def val(a):
+                if a[0] == "ref":
+                    return st.read_key(a[1])
+                if a[0] == "constref":
+                    return a[1]
+                return a
+            if re.search(r"Into<.*>>::into$|::Into::into$|From<.*>>::from$", n) and args and args[0] == ("init", (2,)):
+                return INCOMING
+            if n.endswith("HeaderField::equiv") and len(args) == 2 and val(args[0]) == NAME:
+                lit = absint.str_consts(absint.deep(st, args[1]))
+                if len(lit) == 1:
+                    lits_seen.add(lit[0])
+                    r = lit[0].lower() == cls.lower()
+                    return ("const", r, str(r).lower(), None)
+            if re.search(r"Iterator>?::any(::<|$)|Iterator>::any$", n):
+                d = absint.deep(st, ("tuple", list(args)))
+                ls = set(FRM.term_lits(facts, d))
+                if absint.contains(d, NAME) and len(ls) >= 2:
+                    lits_seen.update(ls)
+                    r = cls.lower() in {x.lower() for x in ls}
+                    return ("const", r, str(r).lower(), None)
+            return None
+        st = symex.Sym(fa)
+        ps = [p for p in absint.explore(fa, 0, st, on_call=on_call, max_paths=3000, deep_events=True) if p.end[0] == "return"]
+        ctx.paths += len(ps)
+        for p in ps:
+            rows += 1
+            parse_ok = ct_present = None
+            for bb, c in p.conds:
+                if not c or c[0] != "variant":
+                    continue
+                h = absint.head_call(c[3]) if c[3] else None
+                if c[2] in ("Ok", "Err") and h is not None and FRM.INT_PARSE.search(h[1] + " " + (h[4] if len(h) > 4 else "")):
+                    parse_ok = c[2] == "Ok"
+                if c[2] in ("Some", "None") and h is not None and re.search(r"Iterator>::(find|position|find_map)$", h[1]) and "Content-Type" in FRM.term_lits(facts, c[3]):
+                    ct_present = c[2] == "Some"
+            pushes = [e for e in p.calls() if re.search(r"Vec::<T(, A)?>::push$", e[2]) and any(absint.contains(a, NAME) and absint.contains(a, VALUE) for a in (e[8] or e[3]))]
+            others = [short(e[2]) for e in p.calls() if re.search(r"Vec::<T(, A)?>::(insert|remove|swap_remove|retain|clear|truncate|extend\w*|drain)$", e[2])]
+            dl = p.state.read_key((1, "*", "." + M0.dlen_f))
+            len_set = dl[0] != "init"
+            replaced = [k for k, v in p.state.mem.items() if len(k) > 1 and "*" in k and k[0] not in (1, 2) and (v == VALUE or (isinstance(v, tuple) and absint.contains(v, VALUE) and not absint.contains(v, NAME)))]
+            got = (len(pushes), len_set, bool(replaced), bool(others))
+            if cls in PROTECTED:
+                want = (0, False, False, False)
+            elif cls == "Content-Length":
+                want = (0, bool(parse_ok), False, False)
+                if parse_ok and len_set and not FRM.is_cl_value(facts, dl[1] if dl[0] == "some" else dl):
+                    bad.append((cls, "declared length is not the parsed value", symex.sym_str(dl)[:60]))
+            elif cls == "Content-Type":
+                want = (0, False, True, False) if ct_present else (1, False, False, False)
+            else:
+                want = (1, False, False, False)
+            if got != want:
+                bad.append((cls, "length parses=%s" % parse_ok, "Content-Type present=%s" % ct_present, "pushes/len-set/replaced/other-mutation", got, want))
+    ctx.counts["C19.1 table rows"] = rows
+    need = {x.lower() for x in PROTECTED + ["Content-Length", "Content-Type"]}
+    ctx.ob("C19.1", "%s|atoms" % f.id, "add_header looks at the incoming header's name for: the four protected names, Content-Length and Content-Type", need <= {x.lower() for x in lits_seen},
+           "%s:%d" % (f.file, f.line), str(sorted(lits_seen)))
+    ctx.ob("C19.1", "%s|table" % f.id, "for every name class / parse outcome / existing Content-Type: protected names are dropped, Content-Length only sets the length, a later Content-Type replaces the existing value in place, anything else is appended exactly once",
+           rows > 0 and not bad, "%s:%d" % (f.file, f.line), None if not bad else str(bad[:4]))
     # equiv is a case-insensitive comparison of the whole name
     eq = roles.inherent(facts, HFIELD, "equiv")
     o = eq.origin_place({"l": 0, "p": []})
@@ -110,16 +112,18 @@ def run(ctx):
     ctx.ob("C19.1", "%s|delegates" % wh.id, "with_header goes through add_header", len(calls) == 1, "%s:%d" % (wh.file, wh.line))
 
     # ---- C19.2 who writes Response.headers
-    allowed = {rnew.id: {"construct"}, add_header.id: {"mutref"}, raw_print.id: {"mutref"}}
-    movers = {roles.inherent(facts, RESP, n).id for n in ("with_data", "boxed")}
-    clone = facts.trait_method(T_CLONE, RESP, "clone")
+    import response_rules as RSP, inline, absint
+    import queue_rules as Q
+    M = RSP.resp_model(facts)
+    printers = {d for dep, d in M.f.inlined}
+    adders = {d for dep, d in inline.inlined(facts, add_header.id, stop=lambda d: facts.fns[d].rec.get("local") and facts.fns[d].file != add_header.file).inlined}
     n = 0
     for g, bb, kind, x in facts.field_writes(RESP, "headers"):
         n += 1
         if kind == "drop":
             continue
-        ok = (g.id in allowed and kind in allowed[g.id]) or (g.id in movers and kind == "construct") or (g.id == clone and kind == "construct")
-        ctx.ob("C19.2", "headers-write|%s|%s" % (g.id, kind), "the header list is written only by new, add_header, raw_print (automatic headers) and whole-value moves", ok, g.loc(bb))
+        ok = (kind == "construct" and g.file == add_header.file) or (kind == "mutref" and (g.id in printers or g.id in adders))
+        ctx.ob("C19.2", "headers-write|%s|%s" % (g.id, kind), "the header list is written only when a Response is built, by add_header (and its helpers) and by raw_print's automatic headers", ok, g.loc(bb))
     ctx.floor("C19.2 writes of Response.headers", n, 5)
     # new(): starts empty; the parameter flows only into add_header
     for g, bb, s in facts.constructions(RESP):
@@ -139,93 +143,95 @@ def run(ctx):
     # conversions (boxed / with_data / clone ...) carry every other field over unchanged and do not go back through the constructor
     conv_fields(ctx, facts, "C19.2")
 
-    # ---- C19.3 automatic Date / Server
+    # ---- C19.3 automatic Date / Server (on the abstract paths of raw_print)
     g = raw_print
-    ctx.touch(g)
-    inserts = [(bb, t) for bb, t in g.calls() if call_matches(t, r"Vec::<T(, A)?>::insert$") and "headers" in arg_origin_fields(g, t)]
-    anys = []
-    for bb, t in g.calls():
-        if call_matches(t, r"Iterator>::any::<|Iterator::any$") and t.get("target") is not None:
-            clo = g.origin(t["args"][1])
-            lit = None
-            if clo[0] == "agg":
-                cf = facts.fn_opt(clo[1])
-                if cf:
-                    for b2, t2 in cf.calls():
-                        if call_matches(t2, r"HeaderField::equiv$"):
-                            ls = [c for c in arg_consts(cf, t2) if isinstance(c, str)]
-                            lit = ls[0] if ls else None
-            bs = bool_switch(g, t["target"])
-            if lit and bs:
-                anys.append((bb, lit, bs))
+    import framing_rules as FRM
+    ps = M.run(200, 7, False, "Identity", False)
+    ctx.paths += len(ps)
     for name in ("Date", "Server"):
-        cand = [a for a in anys if a[1] == name]
-        ok = len(cand) == 1
-        detail = None
-        if ok:
-            bb, lit, bs = cand[0]
-            # the insert of this header sits on the `absent` edge only
-            mine = []
-            for ib, it in inserts:
-                o = g.origin(it["args"][2])
-                cs = [x[1] for x in origin_walk(o) if x[0] == "const"]
-                if (name == "Date" and origin_has_call(o, r"build_date_header$")) or (name == "Server" and b"Server" in cs):
-                    mine.append(ib)
-            # `!any(..)`: the absent edge is the false edge of `any`, unless a Not intervenes
-            o = g.origin(bs[0])
-            neg = o[0] == "unop" and o[1] == "Not"
-            absent = bs[1] if neg else bs[2]
-            present = bs[2] if neg else bs[1]
-            ok = len(mine) == 1 and g.dominates(absent, mine[0], unwind=False) and not g.in_loop(mine[0]) and mine[0] not in g.reach([present], blocked={bb}, unwind=False) - g.reach([absent], blocked={bb}, unwind=False) - set()
-            ok = ok and not (mine[0] in g.reach([present], blocked=set([absent]), unwind=False))
-            detail = "inserts=%s" % mine
-        ctx.ob("C19.3", "%s|auto-%s" % (g.id, name), "a %s header is inserted exactly when the response has none, once" % name, ok, "%s:%d" % (g.file, g.line), detail)
-    bd = facts.fn("response::build_date_header")
+        bad = []
+        seen_vals = set()
+        for p in ps:
+            S = M.summary(p)
+            if not S["ok"]:
+                continue
+            val = None
+            for bb, c in p.conds:
+                if c and c[0] == "scalar" and isinstance(c[2], bool):
+                    v, neg = c[1], False
+                    while v[0] == "unop" and v[1] == "Not":
+                        v, neg = v[2], not neg
+                    if v[0] == "call" and re.search(r"Iterator>::(any|all)$|Iterator>?::any(::<|$)", v[1]) and name in FRM.term_lits(facts, v):
+                        val = c[2] != neg
+                if c and c[0] == "variant" and c[2] in ("Some", "None") and c[3] and c[3][0] == "call" and re.search(r"Iterator>::(find|position)$", c[3][1]) and name in FRM.term_lits(facts, c[3]):
+                    val = c[2] == "Some"
+            cnt = len([1 for i, nm, v in S["headers"] if nm == name.encode()])
+            seen_vals.add(val)
+            if val is None or cnt != (0 if val else 1):
+                bad.append("already present=%s, inserted %d" % (val, cnt))
+        ctx.ob("C19.3", "%s|auto-%s" % (g.id, name), "a %s header is inserted exactly when the response has none, once" % name, seen_vals == {True, False} and not bad, "%s:%d" % (g.file, g.line), None if not bad else str(bad[:3]))
+    bds = [h for k, h in facts.local_fns.items() if h.file == add_header.file and h.call_blocks(lambda t: call_matches(t, r"SystemTime::now$"))]
+    ctx.require(len(bds) == 1, "C19.3: the function that builds the Date header (SystemTime::now) in the response module")
+    bd = bds[0]
     o = bd.origin_place({"l": 0, "p": []})
     ok = origin_has_call(o, r"SystemTime::now$") and origin_has_call(o, r"HttpDate") and b"Date" in [x[1] for x in origin_walk(o) if x[0] == "const"]
     ctx.ob("C19.3", "%s|current-time" % bd.id, "the Date header is the current system time formatted by HttpDate", ok, "%s:%d" % (bd.file, bd.line), origin_str(o)[:200])
 
-    # ---- C19.4 constructors declare the byte length of what they wrap
-    for name, len_re, wrap_re in (("from_string", r"String::len$", r"String::into_bytes$"), ("from_data", r"Vec::<T(, A)?>::len$", None)):
+    # ---- C19.4 constructors declare the byte length of what they wrap (symbolic evaluation of each constructor with its helpers spliced in)
+    DATA = ("init", (1,))
+    for name in ("from_string", "from_data"):
         c = facts.find_fns(r"^response::Response::<std::io::Cursor<std::vec::Vec<u8>>>::%s$" % name)
         ctx.require(len(c) == 1, "C19.4: constructor %s not found" % name)
         c = c[0]
-        ctx.touch(c)
-        calls = c.call_blocks(lambda t: call_is(t, rnew.id) or call_matches(t, r"response::Response::<R>::new$"))
-        ctx.require(len(calls) == 1, "C19.4: %s does not call Response::new once" % name)
-        t = c.term(calls[0])
-        olen = c.origin(t["args"][3])
-        odata = c.origin(t["args"][2])
-        lens = [x for x in origin_calls(olen) if re.search(len_re, x[1])]
-        ok = olen[0] == "agg" and olen[4] == "Some" and len(lens) == 1
-        same = False
-        if ok:
-            # the receiver of len() and the value wrapped by the Cursor are the same local
-            lrecv = lens[0][2][0]
-            ll = [y for y in origin_walk(lrecv) if y[0] in ("local", "call")]
-            dl = [y for y in origin_walk(odata) if y[0] in ("local", "call")]
-            base_l = origin_str(lrecv).lstrip("&*")
-            same = base_l in origin_str(odata)
-        ctx.ob("C19.4", "%s|declares-byte-length" % c.id, "%s declares exactly the byte length (`len()`) of the value it wraps" % name, ok and same, c.loc(calls[0]),
-               "len=%s data=%s" % (origin_str(olen), origin_str(odata)))
-        ctx.ob("C19.4", "%s|no-char-count" % c.id, "the length is a byte length (no chars().count())", not origin_has_call(olen, r"chars|count$"), c.loc(calls[0]))
+        fc = inline.inlined(facts, c.id, stop=lambda d: facts.fns[d].rec.get("local") and (facts.fns[d].file != c.file or d == add_header.id), extern_ok=Q.std_small)
+        ctx.touch(fc)
+        rets = [p for p in absint.explore(fc, 0, None, max_paths=4000) if p.end[0] == "return"]
+        ok = bool(rets)
+        detail = None
+        for p in rets:
+            r = absint.deep(p.state, p.ret())
+            if not (r[0] == "agg" and r[1] == RESP):
+                ok = False; detail = symex.sym_str(r)[:100]; continue
+            dl = r[3].get(M.dlen_f)
+            rd = r[3].get(M.reader_f)
+            lens = [x for x in absint.walk_terms(dl) if x and x[0] == "call" and re.search(r"(String|Vec::<T(, A)?>|<impl str>|<impl \\[T\\]>)::len$", x[1])] if dl else []
+            bytelen = dl is not None and dl[0] == "some" and len(lens) == 1 and not any(x and x[0] == "call" and re.search(r"chars|count$", x[1]) for x in absint.walk_terms(dl))
+            same = bytelen and absint.contains(lens[0], DATA) and rd is not None and absint.contains(rd, DATA) and any(x and x[0] == "call" and re.search(r"std::io::Cursor::<T>::new$", x[1]) for x in absint.walk_terms(rd))
+            if not same:
+                ok = False
+                detail = "len=%s reader=%s" % (symex.sym_str(dl)[:80] if dl else None, symex.sym_str(rd)[:80] if rd else None)
+        ctx.ob("C19.4", "%s|declares-byte-length" % c.id, "%s declares exactly the byte length (`len()`) of the value it wraps" % name, ok, "%s:%d" % (c.file, c.line), detail)
+    def eval_ctor(c):
+        fc = inline.inlined(facts, c.id, stop=lambda d: facts.fns[d].rec.get("local") and (facts.fns[d].file != c.file or d == add_header.id), extern_ok=Q.std_small)
+        ctx.touch(fc)
+        out = []
+        for p in absint.explore(fc, 0, None, max_paths=4000):
+            if p.end[0] == "return":
+                r = absint.deep(p.state, p.ret())
+                if r[0] == "agg" and r[1] == RESP:
+                    out.append(r[3])
+        return out
     emp = facts.find_fns(r"^response::Response::<std::io::Empty>::empty$")[0]
-    calls = emp.call_blocks(lambda t: call_matches(t, r"response::Response::<R>::new$"))
-    t = emp.term(calls[0])
-    olen = emp.origin(t["args"][3])
-    ok = olen[0] == "agg" and olen[4] == "Some" and olen[2][0][1] == 0 and origin_has_call(emp.origin(t["args"][2]), r"std::io::empty$")
-    ctx.ob("C19.4", "%s|zero-length" % emp.id, "an empty response declares length 0 over an empty reader", ok, emp.loc(calls[0]))
+    rs = eval_ctor(emp)
+    ok = bool(rs) and all(r.get(M.dlen_f) == ("some", ("const", 0, "0_usize", None)) and any(x and x[0] == "call" and x[1] == "std::io::empty" for x in absint.walk_terms(r.get(M.reader_f))) for r in rs)
+    ctx.ob("C19.4", "%s|zero-length" % emp.id, "an empty response declares length 0 over an empty reader", ok, "%s:%d" % (emp.file, emp.line))
     ff = facts.find_fns(r"^response::Response::<std::fs::File>::from_file$")[0]
-    calls = ff.call_blocks(lambda t: call_matches(t, r"response::Response::<R>::new$"))
-    olen = ff.origin(ff.term(calls[0])["args"][3])
-    ok = origin_has_call(olen, r"File::metadata$") and not origin_has_call(olen, r"unwrap")
-    ctx.ob("C19.4", "%s|metadata-length" % ff.id, "from_file declares the file's metadata length, or none if unavailable", ok, ff.loc(calls[0]), origin_str(olen))
+    rs = eval_ctor(ff)
+    ok = bool(rs)
+    for r in rs:
+        dl = r.get(M.dlen_f)
+        calls = [x[1] for x in absint.walk_terms(dl) if x and x[0] == "call"] if dl else []
+        if not (dl == ("none",) or any(re.search(r"File::metadata$", c_) for c_ in calls) or any(x and x[0] == "payload" for x in absint.walk_terms(dl))):
+            ok = False
+        if any(re.search(r"unwrap$|expect$", c_) for c_ in calls):
+            ok = False
+        if not absint.contains(r.get(M.reader_f), ("init", (1,))):
+            ok = False
+    ctx.ob("C19.4", "%s|metadata-length" % ff.id, "from_file declares the file's metadata length, or none if unavailable, over that very file", ok, "%s:%d" % (ff.file, ff.line))
     wd = roles.inherent(facts, RESP, "with_data")
-    for g2, bb, s in facts.constructions(RESP):
-        if g2.id == wd.id:
-            r = s["rhs"]
-            ok = g2.origin(r["ops"][r["fields"].index("reader")]) == ("arg", 2) and g2.origin(r["ops"][r["fields"].index("data_length")]) == ("arg", 3)
-            ctx.ob("C19.4", "%s|stores-arguments" % wd.id, "with_data stores the reader and length it is given", ok, g2.loc(bb))
+    rs = eval_ctor(wd)
+    ok = bool(rs) and all(r.get(M.reader_f) == ("init", (2,)) and r.get(M.dlen_f) == ("init", (3,)) for r in rs)
+    ctx.ob("C19.4", "%s|stores-arguments" % wd.id, "with_data stores the reader and length it is given", ok, "%s:%d" % (wd.file, wd.line))
 
     # ---- C19.5 serialisation: each stored header once, in order
     wmh = facts.fn("response::write_message_header")
